@@ -70,7 +70,47 @@ def _json_laws(seed, n):
     return out, cnt, keys
 
 
+def _cli_config_job(k):
+    """the laws through the merge command, run in a working directory whose nbdime_config.json is the documentation's example of a
+    `Diff` section (it configures the DIFF commands: ignore four cell metadata keys): real `nbmerge --out` processes; X differs from
+    base in exactly such a metadata key plus an edit elsewhere"""
+    import copy, json, os
+    import nbformat
+    from bounded import nbspace, c08_harness as H
+    from bounded.difforacles import first_difference
+    base = nbspace.notebook([nbspace.code_cell('x = 1\n', [nbspace.out_stream('1\n')], 1, {'editable': True, 'collapsed': False}),
+                             nbspace.md_cell('# notes\n\ntext\n')], (5, 4)[k % 2])
+    x = copy.deepcopy(base)
+    x['cells'][0]['metadata'] = nbformat.from_dict({'editable': False, 'collapsed': False, 'deletable': False} if k < 2 else {'editable': True, 'collapsed': True})
+    x['cells'][1]['source'] = '# notes\n\ntext, revised\n'
+    out = []
+    for name, roles in (('one-sided-local', 'bxb'), ('one-sided-remote', 'bbx'), ('agreement', 'bxx'), ('identity', 'bbb')):
+        want = x if 'x' in roles else base
+        with H.scratch() as d:
+            with open(os.path.join(d, 'nbdime_config.json'), 'w') as fh:
+                json.dump({'Diff': {'Ignore': {'/cells/*/metadata': ['collapsed', 'autoscroll', 'deletable', 'editable']}}}, fh)
+            paths = []
+            for i, r in enumerate(roles):
+                p = os.path.join(d, '%s%d.ipynb' % ('base' if i == 0 else 'side', i))
+                with open(p, 'w', encoding='utf8') as fh:
+                    nbformat.write({'b': base, 'x': x}[r], fh)
+                paths.append(p)
+            target = os.path.join(d, 'merged.ipynb')
+            rc, stdout, stderr = H.invoke_subprocess('cli', paths + ['--out', target], d, script_name='nbmerge')
+            desc = 'nbmerge (%s; working directory with the documented Diff-section example in nbdime_config.json, case %d)' % (name, k)
+            if rc != 0:
+                out.append(('cli-' + name + ':status', '%s exits with status %d: %s' % (desc, rc, stderr.strip().splitlines()[-1][:160] if stderr.strip() else ''), {'cli': True, 'k': k}))
+                continue
+            got = nbformat.read(target, as_version=4)
+            if nbspace.canon(got) != nbspace.canon(want):
+                out.append(('cli-' + name + ':result', '%s does not return the expected notebook: %s' % (desc, first_difference(nbspace.to_plain(got), nbspace.to_plain(want))),
+                            {'cli': True, 'k': k}))
+    return 4, out, [hash(('cli', k))], None
+
+
 def replay_case(where):
+    if where.get('cli'):
+        return _cli_config_job(where['k'])[1]
     cnt, out, keys, sample = _job((where['seed'], where['n'], where['kind']))
     return [o for o in out if o[2]['index'] == where['index']]
 
@@ -83,7 +123,7 @@ def run(res):
     # the systematic sweep of the pair space (every pool cell x every edit operation; negative seeds select it) for the laws
     jobs += [(-(res.seed * 17 + s + 1), 0, 'laws') for s in range(1 if q else 4)]
     seen = set()
-    for cnt, fails, keys, sample in common.pmap(_job, jobs):
+    for cnt, fails, keys, sample in common.pmap(_job, jobs) + common.pmap(_cli_config_job, list(range(4))):
         res.evaluations += cnt
         res.nontrivial.update(keys)
         for kind, detail, where in fails:
@@ -102,7 +142,8 @@ def run(res):
     res.sample({'symmetry': 'merge(b,l,r) vs merge(b,r,l): same conflict verdict; equal result when conflict free; triples where both sides insert at one position are excluded'})
     res.coverage['rule'] = ('laws: notebook pairs (base, X) from the grammar x 5 strategy tables, and generic JSON documents (lists over {0,1,2} up to length 3, '
                             'dicts over 2 keys, strings up to 2 lines); symmetry: notebook triples x 5 strategy tables excluding same-position double inserts; '
-                            'non-trivial/distinct by canonical JSON of the case')
+                            'non-trivial/distinct by canonical JSON of the case; the laws also through 16 real nbmerge processes in a working directory whose nbdime_config.json holds '
+                            'the documentation\'s Diff-section example')
     res.assumptions.append('bounded: only the stated small scope is explored')
 
 
